@@ -322,6 +322,15 @@ let dispatch (op : string) (a : tok list) : string =
   | "keccak" ->
     let data = List.map (function B x -> x | _ -> []) a in
     xB (KeccakStream.coq_Hash data)
+  | "keccakarena" ->
+    let arena = b 0 in
+    let rec sub l o n = if o > 0 then sub (List.tl l) (o - 1) n else if n = 0 then [] else List.hd l :: sub (List.tl l) 0 (n - 1) in
+    let rec pairs = function o :: n :: r -> sub arena (Z.to_int o) (Z.to_int n) :: pairs r | _ -> [] in
+    xB (KeccakStream.coq_Hash (pairs (l 1))) ^ " " ^ xB arena
+  | "blakearena" ->
+    let arena = b 0 in
+    let rec sub l o n = if o > 0 then sub (List.tl l) (o - 1) n else if n = 0 then [] else List.hd l :: sub (List.tl l) 0 (n - 1) in
+    xB (blake512 (sub arena (Z.to_int (i 1)) (Z.to_int (i 2)))) ^ " " ^ xB arena
   | "blake" -> xB (blake512 (b 0))
   | "ff" -> ff_op (zw (List.nth a 1)) (List.tl (List.tl a))
   | "ffg" -> ffg_op (zw (List.nth a 0)) (List.tl a)
